@@ -400,6 +400,8 @@ pub fn run_case(ctx: &mut CaseCtx) -> CaseResult {
         9 => return rlimit_case(ctx),
         // failures of the system calls themselves, injected by strace (p_c19s.rs)
         7 => return crate::p_c19s::run_case(ctx),
+        // hook faults while a logger starts on a directory with the files of an earlier run (p_c19r.rs)
+        6 => return crate::p_c19r::run_case(ctx),
         _ => {}
     }
     let (cfg, ops, t0) = gen(&mut ctx.rng, &ctx.dir, ctx.thorough);
